@@ -21,9 +21,42 @@ def trunc_div(a, b):
 
 
 class WrapModel(Model):
-    def __init__(self, cell, primitive_hook=None):
+    def __init__(self, cell, primitive_hook=None, enum_mode=False):
         self.cell = cell
         self.hook = primitive_hook
+        self.enum_mode = enum_mode
+        self.org = {}        # id(Iv) -> algebraic origin, for the floor-division lemma  x - floor(x/k)*k in [0, k-1]
+        self.keep = []
+
+    def mark(self, v, org):
+        self.org[id(v)] = org
+        self.keep.append(v)
+        return v
+
+    def lemma(self, op, a, b, ia, ib):
+        """algebraic identities that intervals alone cannot see (x: any tracked value, k: positive constant)
+             (x - (k-1)) / k == floor(x / k)  for x < 0 ;  x / k == floor(x / k) for x >= 0 ;  x - floor(x/k)*k in [0, k-1]"""
+        oa, ob = self.org.get(id(a)), self.org.get(id(b))
+        if op == '-' and ib.const() and ib.lo > 0 and isinstance(a, Iv):
+            return ('mark', ('sub', a, ib.lo))
+        if op == '/' and ib.const() and ib.lo > 0 and isinstance(a, Iv):
+            k = ib.lo
+            if ia.lo >= 0:
+                return ('mark', ('floordiv', a, k))
+            if oa is not None and oa[0] == 'sub' and oa[2] == k - 1 and interval.as_iv(oa[1]).hi < 0:
+                return ('mark', ('floordiv', oa[1], k))
+        if op == '*':
+            for x, ox, y in ((a, oa, ib), (b, ob, ia)):
+                if ox is not None and ox[0] == 'floordiv' and y.const() and y.lo == ox[2]:
+                    return ('mark', ('kfloor', ox[1], ox[2]))
+        if op == '-' and ob is not None and ob[0] == 'kfloor' and ob[1] is a:
+            k = ob[2]
+            if ia.const():
+                return ('value', Iv(ia.lo % k, ia.lo % k))
+            if k <= 512:
+                return ('enum', k)         # small residue range: explored value by value (exact downstream arithmetic)
+            return ('value', Iv(0, k - 1))
+        return None
 
     def is_input(self, v):
         return v is self.cell
@@ -91,10 +124,35 @@ class WrapModel(Model):
         ia, ib = interval.as_iv(a), interval.as_iv(b)
         if ia is None or ib is None:
             return TOP
+        lem = self.lemma(op, a, b, ia, ib)
+        if lem is not None and lem[0] == 'value':
+            return lem[1]
+        if lem is not None and lem[0] == 'enum':
+            lo, hi = 0, lem[1] - 1
+            it.enum_hit = True
+            if not self.enum_mode:
+                return Iv(lo, hi, 'ANY')    # first pass: range only; the final cells are re-run value by value
+            if ia.hi - ia.lo + 1 < lem[1]:
+                # narrow operand range: only the residues that really occur (floor modulus), possibly wrapping around k
+                r0, r1 = ia.lo % lem[1], ia.hi % lem[1]
+                if r0 <= r1:
+                    lo, hi = r0, r1
+                elif it.choose('RESIDUE WRAPS@%s' % fr.f.loc(n)):
+                    lo, hi = r0, lem[1] - 1
+                else:
+                    lo, hi = 0, r1
+            while lo < hi:
+                mid = (lo + hi) // 2
+                if it.choose('RESIDUE<=%d@%s' % (mid, fr.f.loc(n))):
+                    hi = mid
+                else:
+                    lo = mid + 1
+            return Iv(lo, lo)
         if op in ('+', '-', '*'):
             f = {'+': lambda x, y: x + y, '-': lambda x, y: x - y, '*': lambda x, y: x * y}[op]
             c = [f(x, y) for x in (ia.lo, ia.hi) for y in (ib.lo, ib.hi)]
-            return self.typed(it, fr, n, min(c), max(c), 'operator %s' % op, anyv=(ia.tag == 'ANY' or ib.tag == 'ANY'))
+            r = self.typed(it, fr, n, min(c), max(c), 'operator %s' % op, anyv=(ia.tag == 'ANY' or ib.tag == 'ANY'))
+            return self.mark(r, lem[1]) if lem is not None else r
         if op in ('/', '%'):
             if ib.lo <= 0 <= ib.hi:
                 if ib.const():
@@ -103,7 +161,8 @@ class WrapModel(Model):
                 raise Split(None)
             if op == '/':
                 c = [trunc_div(x, y) for x in (ia.lo, ia.hi) for y in (ib.lo, ib.hi)]
-                return self.typed(it, fr, n, min(c), max(c), 'operator /', anyv=(ia.tag == 'ANY' or ib.tag == 'ANY'))
+                r = self.typed(it, fr, n, min(c), max(c), 'operator /', anyv=(ia.tag == 'ANY' or ib.tag == 'ANY'))
+                return self.mark(r, lem[1]) if lem is not None else r
             if ia.const() and ib.const():
                 q = trunc_div(ia.lo, ib.lo)
                 return Iv(ia.lo - q * ib.lo, ia.lo - q * ib.lo)
@@ -194,21 +253,35 @@ class WrapInterp(Interp):
         return Interp.coerce(self, v, t)
 
 
+def _run(prog, f, a, b, setup, primitive_hook, body, max_depth, enum_mode):
+    cell = Iv(a, b, 'ARG')
+    model = WrapModel(cell, primitive_hook, enum_mode=enum_mode)
+    it = WrapInterp(prog, model, max_depth=max_depth, max_paths=4000)
+    it.enum_hit = False
+    paths = it.run(f, lambda it_, fr: setup(it_, fr, cell), body=body)
+    return cell, paths, it.enum_hit
+
+
+def _sig(paths):
+    return tuple(sorted((p.outcome[0], str(p.outcome[1]) if p.outcome[0] == 'THROW' else '',
+                         tuple((x[0], x[1], x[2]) for x in p.actions if x[0] in ('OVERFLOW', 'WRAP', 'WRAPCAST', 'DIVZERO')),
+                         tuple((str(l), d) for l, d in p.guards)) for p in paths))
+
+
 def explore(prog, f, lo, hi, setup, primitive_hook=None, body=None, max_cells=4000, max_depth=2):
-    """yields (cell Iv, [Path]) for the final partition of [lo, hi]; setup(it, fr, cell) binds the input"""
+    """(cell Iv, [Path]) for the final partition of [lo, hi]; setup(it, fr, cell) binds the input.
+    Pass 1 bisects until every guard is decided per cell; neighbours with the same behaviour are merged again; cells that met a
+    small residue range (floor-division lemma) are then re-run with that residue explored value by value."""
     work = [(lo, hi)]
-    out = []
+    final = []
     n = 0
     while work:
         a, b = work.pop()
         n += 1
         if n > max_cells:
             raise AnalysisBroken('nowrap: more than %d cells exploring %s' % (max_cells, f.id[:100]))
-        cell = Iv(a, b, 'ARG')
-        model = WrapModel(cell, primitive_hook)
-        it = WrapInterp(prog, model, max_depth=max_depth, max_paths=2000)
         try:
-            paths = it.run(f, lambda it_, fr: setup(it_, fr, cell), body=body) if body is not None else it.run(f, lambda it_, fr: setup(it_, fr, cell))
+            cell, paths, hit = _run(prog, f, a, b, setup, primitive_hook, body, max_depth, False)
         except Split as s:
             if a == b:
                 raise AnalysisBroken('nowrap: undecided comparison on the singleton cell %d in %s' % (a, f.id[:100]))
@@ -216,6 +289,40 @@ def explore(prog, f, lo, hi, setup, primitive_hook=None, body=None, max_cells=40
             work.append((at, b))
             work.append((a, at - 1))
             continue
-        out.append((cell, paths))
+        final.append([a, b, _sig(paths), paths, hit, cell])
+    final.sort(key=lambda c: c[0])
+    merged = []
+    for c in final:
+        if merged and merged[-1][2] == c[2] and merged[-1][1] + 1 == c[0]:
+            try:
+                cell, paths, hit = _run(prog, f, merged[-1][0], c[1], setup, primitive_hook, body, max_depth, False)
+                if _sig(paths) == c[2]:
+                    merged[-1] = [merged[-1][0], c[1], c[2], paths, hit, cell]
+                    continue
+            except Split:
+                pass
+        merged.append(c)
+    out = []
+    for a, b, sig, paths, hit, cell in merged:
+        if not hit:
+            out.append((cell, paths))
+            continue
+        sub = [(a, b)]
+        k = 0
+        while sub:
+            x, y = sub.pop()
+            k += 1
+            if k > 400:
+                raise AnalysisBroken('nowrap: cell [%d, %d] of %s keeps splitting in the value-by-value pass' % (a, b, f.id[:100]))
+            try:
+                cell2, paths2, _ = _run(prog, f, x, y, setup, primitive_hook, body, max_depth, True)
+            except Split as s:
+                if x == y:
+                    raise AnalysisBroken('nowrap: undecided comparison on the singleton cell %d in %s' % (x, f.id[:100]))
+                at = s.at if s.at is not None and x < s.at <= y else (x + (y - x + 1) // 2)
+                sub.append((at, y))
+                sub.append((x, at - 1))
+                continue
+            out.append((cell2, paths2))
     out.sort(key=lambda cp: cp[0].lo)
     return out
